@@ -663,7 +663,10 @@ edn_value_t* edn_read_number(edn_parser_t* parser) {
             /* Parse radix value */
             int radix_val = 0;
             for (const char* p = parser->current; p < r_pos; p++) {
-                radix_val = radix_val * 10 + (*p - '0');
+                /* saturate: anything above 36 is rejected below, do not overflow int */
+                if (radix_val <= 36) {
+                    radix_val = radix_val * 10 + (*p - '0');
+                }
             }
 
             if (radix_val >= 2 && radix_val <= 36) {
